@@ -6,6 +6,8 @@ pub mod t_probe;
 pub mod common;
 pub mod world;
 pub mod t_manip;
+pub mod t_traverse;
+pub mod t_equal;
 
 pub type Harness = fn();
 pub fn registry() -> Vec<(&'static str, Harness)> {
@@ -13,5 +15,7 @@ pub fn registry() -> Vec<(&'static str, Harness)> {
     k_entity::register(&mut v);
     t_probe::register(&mut v);
     t_manip::register(&mut v);
+    t_traverse::register(&mut v);
+    t_equal::register(&mut v);
     v
 }
